@@ -26,7 +26,7 @@ def c11Line (line : String) : String :=
       let vm := Vm.run tb.env oracle tb.ticks ()
       let w := W.run tb.env (fun k => k * 31 + 5) tb.ticks ()
       let m := M.run stdHeap tb.env tb.ticks ()
-      s!"P\t{showRun vm}\t{showRun w}\t{tb.classify}\t{showRun m}"
+      s!"P\t{showRun vm}\t{showRun w}\t{runInfo vm}\t{showRun m}"
     | none => "bad-input"
   | _ => "bad-input"
 
